@@ -212,3 +212,35 @@ pub open spec fn post_function(a: Unifiable, b: Unifiable, ss: RSS, res: Option<
 // Whether self.unify(other, ss) succeeds.  Uninterpreted; tied to the real function
 // only by the stub-only clause `(res is Some) == unify_ok(..)` (unify is pure).
 pub uninterp spec fn unify_ok(a: Unifiable, b: Unifiable, s: SS) -> bool;
+
+// --- `$_` at nested positions (C09) ------------------------------------------------
+// a and b match purely because of `$_` (or are equal): complex terms of the same arity
+// whose functors are equal and whose arguments match in this way, position by position
+pub open spec fn anon_match(a: Unifiable, b: Unifiable) -> bool
+    decreases a,
+{
+    a is Anonymous || b is Anonymous || ueq(a, b)
+    || match (a, b) {
+        (Unifiable::SComplex(x), Unifiable::SComplex(y)) => anon_match_seq(x@, y@),
+        _ => false,
+    }
+}
+
+pub open spec fn anon_match_seq(a: Seq<Unifiable>, b: Seq<Unifiable>) -> bool
+    decreases a,
+{
+    a.len() == b.len() && (a.len() == 0 || (anon_match(a[0], b[0]) && anon_match_seq(a.drop_first(), b.drop_first())))
+}
+
+pub proof fn lemma_anon_match_seq_index(a: Seq<Unifiable>, b: Seq<Unifiable>, i: int)
+    requires anon_match_seq(a, b), 0 <= i < a.len(),
+    ensures anon_match(a[i], b[i]),
+    decreases a.len(),
+{
+    if i > 0 { lemma_anon_match_seq_index(a.drop_first(), b.drop_first(), i - 1); }
+}
+
+// matching through `$_` never creates or changes a binding, at any depth of complex terms (C09)
+pub open spec fn post_anon_deep(a: Unifiable, b: Unifiable, ss: RSS, res: Option<RSS>) -> bool {
+    anon_match(a, b) && !(a is SFunction) && !(b is SFunction) ==> res == Some(ss)
+}
